@@ -20,6 +20,11 @@ open Parsley Parsley.Prim Parsley.Obj Parsley.Spelling Driver
     `nolit <d> <hex>`                              such a text that is not an object (token beyond the i128 range, or a
                                                    reference whose number / generation is not an integer): must be rejected
     (`lit` / `nolit` also carry the tokens WITH a decimal point, expected value by Spec/DecLit.lean)
+    `pad <d> <hex> <len> <lead> <expected sexp…>`  a text whose integer positions (integers, integer parts of reals, object
+                                                   number and generation of references) carry up to 45 leading zeros, or a
+                                                   reference whose numbers sit at a digit-count / integer-type boundary;
+                                                   expected value by `refDenote` / Spec/NumLit.lean / Spec/DecLit.lean;
+                                                   judged like `sp` (texts of the family that are not an object: `nolit`)
     `cut <d> <hex> <r>`                            a strict prefix of a legal spelling (the rest lies behind the window of a
                                                    view case): whatever is accepted lies inside the buffer; with r = 1 (a
                                                    string, array or dictionary cut before its closing delimiter) it must be
@@ -50,7 +55,8 @@ def model (line : String) : String := Views.model winOf modelPlain line
 
 def judgePlain (case impl : String) : String :=
   match words case with
-  | "sp" :: _ :: _ :: len :: lead :: sexp | "lit" :: _ :: _ :: len :: lead :: sexp =>
+  | "sp" :: _ :: _ :: len :: lead :: sexp | "lit" :: _ :: _ :: len :: lead :: sexp
+  | "pad" :: _ :: _ :: len :: lead :: sexp =>
     let want := s!"ok {lead} {len} {len} " ++ " ".intercalate sexp
     if impl.trimAscii.toString == want then "ok"
     else if impl.startsWith "ok" then s!"bad wrong-value-or-cursor want={want}"
@@ -295,6 +301,214 @@ def decLits (emit : String → IO Unit) (full : Bool) : IO Unit := do
       emit (caseOf (bs "[" ++ tok ++ bs " 0 R]") [] none)
       emit (caseOf (bs "5") (bs " " ++ tok ++ bs " R") (some (.int 5)))
 
+/-! ### zero padding of every integer position, digit-count boundaries of reference numbers
+
+  Leading zeros never change what a digit string denotes (`Spells.int` / `.real` / `.ref`, Props/C02Struct.lean: ANY
+  non-empty digit string whose VALUE fits; Spec/NumLit.lean, Spec/DecLit.lean: "leading zeros do not matter"), however
+  many there are: a token of 20, 39 or 60 digits is still the number 12.  The families below put 0..45 leading zeros
+  (so that the digit count crosses 19/20 - the decimal length of i64::MAX - and 38/39 - that of i128::MAX - whatever
+  the value's own length) in front of EVERY integer position of every construct: the object number, the generation,
+  and both numbers of a reference; a (signed) integer; the integer part of a (signed) real - each bare before the
+  generator's following contexts and inside arrays / dictionaries; and sweep the VALUE of object number and generation
+  over the digit-count and integer-type boundaries (10^k-1 / 10^k, 65535/65536, 2^31, 2^32, 2^63-1 | 2^63, ...).
+  Expected values come from the spec side alone: `refDenote`, `NumLit.denote`, `DecLit.denote`. -/
+
+/-- **What `ds1 ws ds2 ws R` denotes** (two non-empty digit strings, leading zeros allowed): the reference
+    (value of ds1, value of ds2) when both VALUES are at most i64::MAX (`Spells.ref`; `NumLit.headerOK`), else it is
+    not a reference -/
+def refDenote (ds1 ds2 : Bytes) : Option Obj :=
+  if NumLit.headerOK (DecLit.decVal ds1) && NumLit.headerOK (DecLit.decVal ds2) then
+    some (.ref (DecLit.decVal ds1) (DecLit.decVal ds2))
+  else none
+
+/-- a case: `text` (after `lead`, before `ctx`) must be consumed and denote `e`; `none`: must be rejected -/
+def padCase (lead text ctx : Bytes) (e : Option Obj) : String :=
+  match e with
+  | some e => s!"pad 5 {hexOfBytes (lead ++ text ++ ctx)} {lead.length + text.length} {lead.length} {objSexp e}"
+  | none => s!"nolit 5 {hexOfBytes (lead ++ text ++ ctx)}"
+
+def padLeads : List Bytes := [[], [32], bs "%c\n ", [13, 10]]
+/-- whitespace between the numbers of a reference / before `R` -/
+def padWs : List Bytes := [[32], [10], [13, 10], [32, 32], bs "%c\n", [0], [9, 32], [12]]
+
+/-- the following contexts of case number `k`: all of them, or (quick) four, rotating -/
+def padCtxs (full : Bool) (k : Nat) : List Bytes :=
+  if full then contexts else (List.range 4).map fun i => contexts[(k + 4 * i) % contexts.length]?.getD []
+
+/-- a value spelled `tok` (denoting `v`; an Integer iff `isI`): bare before the following contexts, as array element,
+    single array element, twice in an array, dictionary value (last and not last), array inside a dictionary,
+    dictionary inside an array -/
+def padForms (emit : String → IO Unit) (full : Bool) (k : Nat) (tok : Bytes) (v : Option Obj) (isI : Bool) : IO Unit := do
+  let lead := padLeads[k % 4]?.getD []
+  for ctx in padCtxs full k do
+    emit (padCase lead tok (genContextFor isI ctx) v)
+  let after := contexts[k % contexts.length]?.getD []
+  emit (padCase lead (bs "[1 " ++ tok ++ bs "/X]") after (v.map fun v => .arr [.int 1, v, .name (bs "X")]))
+  emit (padCase lead (bs "[" ++ tok ++ bs "]") after (v.map fun v => .arr [v]))
+  emit (padCase lead (bs "[" ++ tok ++ bs " " ++ tok ++ bs "\n]") after (v.map fun v => .arr [v, v]))
+  emit (padCase lead (bs "<</A " ++ tok ++ bs ">>") after (v.map fun v => .dict [(bs "A", v)]))
+  emit (padCase lead (bs "<</A " ++ tok ++ bs "/B 1>>") after (v.map fun v => .dict [(bs "A", v), (bs "B", .int 1)]))
+  emit (padCase lead (bs "<</A[" ++ tok ++ bs " ]>>") after (v.map fun v => .dict [(bs "A", .arr [v])]))
+  emit (padCase lead (bs "[<</K " ++ tok ++ bs " >>(s)]") after (v.map fun v => .arr [.dict [(bs "K", v)], .str (bs "s")]))
+
+/-- `ds1 ws ds2 ws R` in every position.  A reference (`refDenote`): all the forms of `padForms`.  Not a reference (a
+    value beyond i64::MAX): at the top level the first token is a value of its own (`NumLit.denote`: Integer, real
+    value/1, or - beyond i128 - not an object) and the rest is what follows it; inside an array / dictionary the text
+    is not an object (`R` is none). -/
+def refForms (emit : String → IO Unit) (full : Bool) (k : Nat) (ds1 ds2 : Bytes) : IO Unit := do
+  let w1 := padWs[k % padWs.length]?.getD [32]
+  let w2 := padWs[(k / 3) % padWs.length]?.getD [32]
+  let tok := ds1 ++ w1 ++ ds2 ++ w2 ++ [82]
+  match refDenote ds1 ds2 with
+  | some v => padForms emit full k tok (some v) false
+  | none =>
+    let lead := padLeads[k % 4]?.getD []
+    emit (padCase lead ds1 (w1 ++ ds2 ++ w2 ++ [82]) (NumLit.denote false (DecLit.decVal ds1)))
+    emit (padCase lead (bs "[" ++ tok ++ bs "]") [] none)
+    emit (padCase lead (bs "<</A " ++ tok ++ bs ">>") [] none)
+
+def signBytes (neg : Bool) (k : Nat) : Bytes := if neg then [45] else if k % 2 == 1 then [43] else []
+
+/-- pad a digit string with zeros up to `n` digits in all -/
+def padTo (n : Nat) (ds : Bytes) : Bytes := zeros (n - ds.length) ++ ds
+
+def padSweep (emit : String → IO Unit) (full : Bool) : IO Unit := do
+  let mut k := 0
+  -- (1) 0..45 leading zeros in front of every integer position
+  let refBases : List (Nat × Nat) := [(12, 0), (7, 0), (0, 0), (1, 65535), (2 ^ 63 - 1, 2 ^ 63 - 1), (629, 1)]
+  let intMags : List Nat := [0, 7, 12, 65535, 10 ^ 18, 2 ^ 63 - 1, 2 ^ 63, 2 ^ 64 + 5, 2 ^ 127 - 1, 2 ^ 127]
+  let l127 := natDigits (2 ^ 127 - 1)
+  let realToks : List (Bytes × Bytes) := [([], bs "5"), (bs "0", bs "5"), (bs "3", bs "14159"), (bs "12", []), (bs "17", bs "000"),
+    (l127.take 20, l127.drop 20), (l127, bs "0"), (bs "1", zeros 38), (bs "1", zeros 39)]
+  for z in List.range 46 do
+    -- references: zeros before the object number, before the generation, before both
+    for i in List.range refBases.length do
+      if full || i % 3 == z % 3 then
+        let (n, g) := refBases[i]?.getD (12, 0)
+        for (z1, z2) in [(z, 0), (0, z), (z, 45 - z)] do
+          k := k + 1
+          refForms emit full k (zeros z1 ++ natDigits n) (zeros z2 ++ natDigits g)
+    -- integers (quick: one sign per magnitude and padding, rotating)
+    for i in List.range intMags.length do
+      let mag := intMags[i]?.getD 0
+      for sg in List.range 3 do
+        if full || sg == (z + i) % 3 then
+          k := k + 1
+          let neg := sg == 2
+          let tok := signBytes neg sg ++ zeros z ++ natDigits mag
+          padForms emit full k tok (NumLit.denote neg mag) (NumLit.isInt neg mag)
+    -- reals: zeros before the integer part
+    for i in List.range realToks.length do
+      let (ds0, fs) := realToks[i]?.getD ([], bs "5")
+      for sg in List.range 3 do
+        if full || sg == (z + i) % 3 then
+          k := k + 1
+          let neg := sg == 2
+          let ds := zeros z ++ ds0
+          let tok := signBytes neg sg ++ ds ++ [46] ++ fs
+          padForms emit full k tok (DecLit.denote neg ds fs) (DecLit.isInt neg ds fs)
+  -- (2) the VALUE of object number and generation at the digit-count and integer-type boundaries
+  let pow10s : List Nat := (List.range 20).flatMap fun e => [10 ^ (e + 1) - 1, 10 ^ (e + 1)]
+  let objs : List Nat := pow10s ++ [0, 65535, 65536, 2 ^ 31 - 1, 2 ^ 31, 2 ^ 32 - 1, 2 ^ 32, 2 ^ 32 + 5, 2 ^ 53, 2 ^ 63 - 2, 2 ^ 63 - 1,
+    2 ^ 63, 2 ^ 63 + 1, 2 ^ 64 - 1, 2 ^ 64, 2 ^ 64 + 5, 2 ^ 64 + 12, 2 ^ 127 - 1, 2 ^ 127, 10 ^ 39]
+  let gens : List Nat := [0, 1, 9, 10, 255, 256, 65534, 65535, 65536, 65537, 99999, 100000, 2 ^ 31 - 1, 2 ^ 31, 2 ^ 32 - 1, 2 ^ 32,
+    2 ^ 32 + 5, 10 ^ 18, 2 ^ 63 - 1, 2 ^ 63, 2 ^ 64, 2 ^ 64 + 5, 2 ^ 127 - 1, 2 ^ 127, 10 ^ 39]
+  let pairs : List (Nat × Nat) :=
+    if full then objs.flatMap fun n => gens.map fun g => (n, g)
+    else
+      ((List.range objs.length).flatMap fun i =>
+        [0, 1].map fun j => (objs[i]?.getD 0, gens[(2 * i + j * 7) % gens.length]?.getD 0)) ++
+      (gens.flatMap fun g => [(12, g), (2 ^ 63 - 1, g)])
+  for (n, g) in pairs do
+    k := k + 1
+    let d1 := natDigits n
+    let d2 := natDigits g
+    -- as written; and padded to exactly 19 / 20 / 38 / 39 / 40 digits (rotating)
+    refForms emit full k d1 d2
+    let w := [19, 20, 38, 39, 40][k % 5]?.getD 20
+    k := k + 1
+    refForms emit full k (padTo w d1) d2
+    k := k + 1
+    refForms emit full k d1 (padTo w d2)
+    k := k + 1
+    refForms emit full k (padTo w d1) (padTo ([20, 39, 19][k % 3]?.getD 20) d2)
+
+/-! ### random values once more, every number zero-padded
+
+  `padSpell` writes a value like the encoder `spell` of Spec/Spelling.lean (whitespace / comment runs, name escapes,
+  string forms, entry order from the choice stream), but with 0..45 leading zeros - chosen per number - in front of
+  every integer, of the integer part of every real, and of both numbers of every reference, at any nesting depth.
+  The value denoted is the value spelled. -/
+
+mutual
+def padSpell : Obj → Ch → Bytes × Ch
+  | .int n, c =>
+    let (sg, c) := signOf (n < 0) c
+    let (z, c) := pick c 46
+    (sg ++ zeros z ++ natDigits n.natAbs, c)
+  | .real n d, c =>
+    let k := (natDigits d).length - 1
+    let (sg, c) := signOf (n < 0) c
+    let ds := natDigits n.natAbs
+    let ds := zeros (k - ds.length) ++ ds
+    let (z, c) := pick c 46
+    (sg ++ zeros z ++ ds.take (ds.length - k) ++ [46] ++ ds.drop (ds.length - k), c)
+  | .ref n g, c =>
+    let (z1, c) := pick c 46
+    let (z2, c) := pick c 46
+    let (w1, c) := wsReq c
+    let (w2, c) := wsReq c
+    (zeros z1 ++ natDigits n ++ w1 ++ zeros z2 ++ natDigits g ++ w2 ++ [82], c)
+  | .arr xs, c =>
+    let (w, c) := wsOpt c
+    let (r, c) := padElems xs [91] c
+    ([91] ++ w ++ r, c)
+  | .dict kvs, c =>
+    let (w, c) := wsOpt c
+    let (r, c) := padEntries kvs c
+    ([60, 60] ++ w ++ r, c)
+  | .null, c => spell .null c
+  | .bool b, c => spell (.bool b) c
+  | .name b, c => spell (.name b) c
+  | .str b, c => spell (.str b) c
+  | .comment _, c => ([], c)
+  | .stream _ _, c => ([], c)
+def padElems : List Obj → Bytes → Ch → Bytes × Ch
+  | [], _, c => ([93], c)
+  | x :: t, prev, c =>
+    let (sx, c) := padSpell x c
+    let (sep, c) := sepFor prev sx c
+    let (r, c) := padElems t sx c
+    (sep ++ sx ++ r, c)
+def padEntries : List (Bytes × Obj) → Ch → Bytes × Ch
+  | [], c =>
+    let (w, c) := wsOpt c
+    (w ++ [62, 62], c)
+  | (k, v) :: t, c =>
+    let (kb, c) := nameBody k c
+    let key := 47 :: kb
+    let (sv, c) := padSpell v c
+    let (sep, c) := sepFor key sv c
+    let (w, c) := wsOpt c
+    let (r, c) := padEntries t c
+    (key ++ sep ++ sv ++ w ++ r, c)
+end
+
+mutual
+/-- does the value contain a number (an integer position to pad)? -/
+def hasNum : Obj → Bool
+  | .int _ | .real _ _ | .ref _ _ => true
+  | .arr xs => hasNumList xs
+  | .dict kvs => hasNumKvs kvs
+  | _ => false
+def hasNumList : List Obj → Bool
+  | [] => false
+  | x :: t => hasNum x || hasNumList t
+def hasNumKvs : List (Bytes × Obj) → Bool
+  | [] => false
+  | (_, v) :: t => hasNum v || hasNumKvs t
+end
+
 /-! ### every case once more on a restricted view (Driver/Views.lean)
 
   Each case line is followed by its view twin.  Axes, cycled by the running case counter `c` with pairwise coprime
@@ -324,7 +538,7 @@ def viewTwin (c : Nat) (line : String) (cont : Option Bytes) : Option String :=
         match rest with
         | len :: _ =>
           match len.toNat? with
-          | some l => if (tag == "sp" || tag == "lit") && c % 3 == 0 && l > 0 && l ≤ buf.length
+          | some l => if (tag == "sp" || tag == "lit" || tag == "pad") && c % 3 == 0 && l > 0 && l ≤ buf.length
                       then some (" ".intercalate (tag :: d :: hexOfBytes (buf.take l) :: rest), l, buf.drop l) else none
           | none => none
         | [] => none
@@ -389,8 +603,9 @@ def gen (seed n : Nat) (tier : String) (emit0 : String → IO Unit) : IO Unit :=
   cutWindows emit0 seed (if tier == "thorough" then 400 else 40)
   numLits emit (tier == "thorough")
   decLits emit (tier == "thorough")
+  padSweep emit (tier == "thorough")
   let mut r := Rng.mk' seed
-  for _ in List.range n do
+  for i in List.range n do
     let (v, r1) := rndObj 4 r
     let (sv, r2) := shuffleObj v r1
     let (ch, r3) := rndChoices r2 600
@@ -405,6 +620,12 @@ def gen (seed n : Nat) (tier : String) (emit0 : String → IO Unit) : IO Unit :=
     emit s!"sp {d} {hexOfBytes (sp ++ ctx)} {sp.length} {lead.length} {objSexp v}"
     -- the value must lie in the domain of the encoder theorem; otherwise the case is reported
     if !inDomain v sv d then emit s!"genbad {d} {hexOfBytes (sp ++ ctx)}"
+    -- the same value with 0..45 leading zeros in front of every integer position (own choice stream)
+    if hasNum v then
+      let (pch, _) := rndChoices (Rng.mk' (seed * 31 + i + 5)) 600
+      let (pbody, _) := padSpell sv pch
+      let psp := lead ++ pbody
+      emit s!"pad {d} {hexOfBytes (psp ++ ctx)} {psp.length} {lead.length} {objSexp v}"
     -- a single-byte mutation / truncation of the same spelling (correspondence + no-panic + no-null-entry)
     let (mk, r7) := r.nat 3
     let (pos, r8) := r7.nat (sp.length + 1)
@@ -431,6 +652,7 @@ def nontrivialPlain (line : String) : Bool :=
   | "cut" :: _ :: hex :: _ => hex.length ≥ 8
   | "sp" :: _ :: hex :: _ => hex.length ≥ 8
   | "lit" :: _ :: hex :: _ => hex.length ≥ 8
+  | "pad" :: _ :: hex :: _ => hex.length ≥ 8
   | "nolit" :: _ => true
   | "dup" :: _ => true
   | "mut" :: _ :: hex :: _ => hex.length ≥ 8
